@@ -500,6 +500,23 @@ def rule_rescore_scope(ctx) -> None:
                       f"`{src(x)[:70]}` maps ids to episodes over ALL owners (last one wins): an agent-scoped hit whose id also exists under another owner is scored with that owner's timestamp and "
                       "importance - another owner's memory reorders an agent-scoped result")
     ctx.floor("C11.OWNER", "maps built over the raw episode list in t2_semantic", n_maps, 1)
+    # under owner_scope "any" ids are not unique in the map either (two owners, one id): a hit is looked up under ITS owner, not
+    # under the id alone - the id-only map keeps whichever row came last, so the hit of owner A would be scored with the
+    # timestamp / importance of owner B's episode and the order would contradict the combined score of what was returned
+    n_look = 0
+    for lp in [x for x in walk_no_defs(t2.node) if isinstance(x, ast.For) and isinstance(x.target, ast.Name)]:
+        v = lp.target.id
+        for st in lp.body:
+            for x in ast.walk(st):
+                if isinstance(x, ast.Assign) and any(isinstance(y, ast.Call) and call_tail(y) == "get" and y.args and src(y.args[0]) == f"{v}.id" for y in ast.walk(x.value)) \
+                        and any(isinstance(y, ast.Call) and call_tail(y) == "get" and y.args and const_str(y.args[0]) in ("ts", "aux") and isinstance(y.func.value, ast.Name) and any(
+                            isinstance(t, ast.Name) and t.id == y.func.value.id for t in x.targets) for st2 in lp.body for y in ast.walk(st2)):
+                    n_look += 1
+                    by_owner = any(isinstance(y, ast.Call) and call_tail(y) == "get" and y.args and "owner" in src(y.args[0]) and v in src(y.args[0]) for y in ast.walk(x.value))
+                    ctx.check(by_owner, "C11.OWNER", ctx.okey(f"{t2.qual}/hit-looked-up-under-its-owner"), t2.loc(x), f"`{src(x.value)[:60]}` looks the hit up under its own owner first",
+                              f"`{src(x.value)[:60]}` finds a hit's episode by id alone: under owner_scope 'any' two owners may hold the same id, the map keeps the last row, and owner A's hit is scored with "
+                              "owner B's timestamp / importance - the returned order contradicts the documented combined score of the episodes actually returned")
+    ctx.floor("C11.OWNER", "episode lookups of the rescoring loop", n_look, 1)
     # numeric episode fields
     n_conv = 0
     for x in walk_no_defs(t2.node):
@@ -939,7 +956,53 @@ def rule_zero_caps(ctx) -> None:
     zero_cap_rule(ctx, "C11.RES", ["clematis.engine.stages.t2.core:t2_semantic", "clematis.engine.stages.t2.shard:merge_tier_hits_across_shards_dict"], 3)
 
 
+def rule_rescoring_data_on_every_backend(ctx) -> None:
+    """"ordered by the documented combined score": alpha * cosine + beta * recency + gamma * importance needs each hit's timestamp
+    and importance.  T2 takes them from a data attribute of the index object; every index class the stage can be configured
+    with (the classes of clematis.memory that implement search_tiered) must have that attribute - on a backend without it the
+    lookup is empty, every hit gets recency 0 / importance 0.5 and the result is ordered by cosine alone."""
+    t2 = ctx.func(T2)
+    rd = ctx.rd(t2)
+    # the index object: what the stage searches (X.search_tiered(...))
+    idx_names = {c.func.value.id for x in walk_no_defs(t2.node) for c in [x] if isinstance(c, ast.Call) and isinstance(c.func, ast.Attribute) and c.func.attr == "search_tiered" and isinstance(c.func.value, ast.Name)}
+    if not idx_names:
+        raise AnalysisError("anchor-vanished: <index>.search_tiered(...) in t2_semantic")
+    # data attributes read from it that reach the combined score (the slice of the sort key of the rescoring)
+    sorts = [x for x in walk_no_defs(t2.node) if isinstance(x, ast.Call) and call_tail(x) == "sort" and isinstance(x.func, ast.Attribute) and x.keywords]
+    cfg = ctx.cfg(t2)
+    attrs = {}
+    for srt in sorts:
+        at = cfg.node_containing(srt)
+        if not at:
+            continue
+        sl = rd.slice([srt.func.value], at[0], control=False)
+        for y in sl.nodes():
+            if isinstance(y, ast.Call) and dotted(y.func) == "getattr" and len(y.args) >= 2 and isinstance(y.args[0], ast.Name) and y.args[0].id in idx_names and const_str(y.args[1]):
+                attrs.setdefault(const_str(y.args[1]), y)
+    called = {id(y.func) for srt in sorts for y in ast.walk(t2.node) if isinstance(y, ast.Call)}
+    data_attrs = {a: n for a, n in attrs.items()}
+    ctx.floor("C11.RANK", "data attributes of the index that feed the combined score", len(data_attrs), 1)
+    backends = []
+    for mn in (IDX, LANCE):
+        if mn not in ctx.prog.modules:
+            continue
+        m = ctx.prog.module(mn)
+        for cname in sorted({f.cls for f in m.funcs.values() if f.cls and f.name == "search_tiered" and "." not in f.cls and not f.cls.startswith("_")}):
+            backends.append((mn, cname))
+    ctx.floor("C11.RANK", "index backends (classes with search_tiered)", len(backends), 2)
+    for a, node in sorted(data_attrs.items()):
+        for mn, cname in backends:
+            has = any(isinstance(x, (ast.Assign, ast.AnnAssign)) and any(isinstance(t, ast.Attribute) and isinstance(t.value, ast.Name) and t.value.id == "self" and t.attr == a
+                                                                         for t in (x.targets if isinstance(x, ast.Assign) else [x.target]))
+                      for f in ctx.prog.module(mn).funcs.values() if f.cls == cname for x in walk_no_defs(f.node)) \
+                or any(f.cls == cname and f.name == a for f in ctx.prog.module(mn).funcs.values())
+            ctx.check(has, "C11.RANK", f"{t2.qual}/rescoring-data-on-backend:{a}:{cname}", t2.loc(node), f"{cname} provides `{a}`",
+                      f"the combined score takes each hit's timestamp / importance from `{src(node)[:40]}`, and {cname} has no `{a}`: with that backend configured (t2.backend) the lookup is empty, "
+                      "every hit is scored recency 0 / importance 0.5, and the result is ordered by cosine alone - not by the documented combined score")
+
+
 def run(ctx) -> None:
+    rule_rescoring_data_on_every_backend(ctx)
     rule_zero_caps(ctx)
     rule_cluster_id_identity(ctx)
     rule_owner(ctx)
